@@ -27,6 +27,8 @@ ASSUMPTIONS = [
     "freezing/assigning parameters while frozen is not generated",
     "re-evaluation after unfreeze/mark_for_update/structural edits of a node or one of its inputs counts as permitted",
     "graph edits through the node API never close a cycle (only Nexus.add_dependency/add check for cycles)",
+    "a read whose definition cannot be evaluated must raise the exception the definition raises (by type name) every time "
+    "it is repeated; which functions are evaluated during a failing read is only bounded by the call-count rule",
 ]
 
 
@@ -604,6 +606,11 @@ def jobs(tier, seed):
             specs.append(("bounded", name, sh, d, 4, (0, 1)))
         for name, sh in STRUCTURAL_SHAPES.items():
             specs.append(("structural", name, sh, (0, 1), 3, (0,)))
+        for name, sh in FAIL_SHAPES.items():
+            top, one_input = not name.endswith("/"), not name.startswith("fail:B2/")
+            if one_input and not top:
+                specs.append(("rw", name, sh, dom, None, (0,)))
+            specs.append(("bounded", name, sh, dom, 3 if top else 4, (0,)))
         specs.append(("nexus", "registry", None, None, 4, None))
     else:
         for order in ("asc", "desc"):
@@ -621,6 +628,10 @@ def jobs(tier, seed):
             specs.append(("bounded", name, sh, d[:2], 6, (0, 1)))
         for name, sh in STRUCTURAL_SHAPES.items():
             specs.append(("structural", name, sh, (0, 1), 4, (0,)))
+        for name, sh in FAIL_SHAPES.items():
+            one_input = not name.startswith("fail:B2/")
+            specs.append(("rw", name, sh, (0, 1), None if one_input else 6, (0,)))
+            specs.append(("bounded", name, sh, (0, 1), 5, (0,)))
         specs.append(("nexus", "registry", None, None, 6, None))
     # de-duplicate identical specs (asc == desc when no node has two children)
     seen, out = set(), []
@@ -638,11 +649,15 @@ def bound(tier, seed):
         return (
             "closure (fixpoint): all topologically numbered DAGs with 2..3 nodes incl. function replacement, with 4 nodes and "
             "11 hand-written shapes without function replacement, values {0,1}; depth 4 with function replacement on the same "
-            "shapes; structural edits depth 3 on 6 shapes; Nexus registry API depth 4"
+            "shapes; structural edits depth 3 on 6 shapes; Nexus registry API depth 4; nodes that cannot be evaluated: "
+            "5 failing sub-graphs (raising function; fallbacks without working alternative, 3 exception types) x 8 parents x "
+            "3 tops = 120 shapes, all operations depth 4 (no top) / 3 (with top), set/read closure on the 32 one-input shapes "
+            "without top; the read directly after a failed read is a state of its own"
         )
     return (
         "closure: all DAGs with 2..4 nodes (both child orders, values {0,1,2}) and 5 nodes (values {0,1}) + 11 special shapes; "
-        "depth 6 with function replacement; structural edits depth 4; Nexus registry API depth 5"
+        "depth 6 with function replacement; structural edits depth 4; Nexus registry API depth 5; 120 shapes with nodes that "
+        "cannot be evaluated: set/read closure (two-input sub-graphs depth 6), all operations depth 5"
     )
 
 
@@ -806,3 +821,9 @@ def vacuity_guards(tot, tier):
     yield "alias / tuple / array / fallback nodes read", all(f.get("read:%s:live" % k, 0) > 0 for k in "ATRB")
     yield "more than 3 distinct outcome classes", len(tot.outcomes) > 3
     yield "cached reads observed", any(k[1] == "cached" for k in tot.outcomes if isinstance(k, tuple) and len(k) == 3)
+    yield "failing reads of function / fallback / alias / tuple / array nodes repeated without an operation in between", all(
+        f.get("read-fails-again:%s" % k, 0) > 0 for k in "XFBATR"
+    )
+    yield "nodes above a fallback whose read has just failed are read (failing and falling through)", all(
+        f.get("read-above-failed:%s>B:%s" % (k, o), 0) > 0 for k, o in (("B", "val"), ("B", "exc"), ("T", "val"), ("T", "exc"), ("F", "exc"))
+    )
